@@ -159,6 +159,23 @@ func runC31(c *eng.Ctx) {
 				}
 			}
 		}
+		// equivalent: a `defer close(done)` registered in the entry block, with the
+		// cancellation arm returning (the deferred close then runs at that return)
+		if !closes && blk != nil {
+			deferred := false
+			for _, in := range run.Blocks[0].Instrs {
+				if d, ok := in.(*ssa.Defer); ok && eng.CalleeName(d) == "builtin:close" && eng.ChanField(d.Call.Args[0]) == doneF {
+					deferred = true
+				}
+			}
+			returns := false
+			for _, b := range dominatedBlocks(blk) {
+				if _, ok := b.Instrs[len(b.Instrs)-1].(*ssa.Return); ok {
+					returns = true
+				}
+			}
+			closes = deferred && returns
+		}
 		c.Check("R4", "cancellation-closes-done", main.Pos(), closes, "termination closes done (releasing blocked Strobe callers)")
 	}
 	// R4: Strobe.
